@@ -623,14 +623,16 @@ theorem ShellInv.step {s : Sys.Sys F} (h : ShellInv s) (e : Sys.Ev) : ShellInv (
 /-- **One event, one link** (every constructor of `Sys.Ev`, every index `j`): from an invariant state, the key
 list of link `j` after the event is the fold of the per-link set machine over a list of set operations that
 the event allows for that link; afterwards `in_flight_packets` is the size of the set (never negative) and the
-set has no duplicates. -/
-theorem C02_shell_refines_event (s : Sys.Sys F) (e : Sys.Ev) (hinv : ShellInv s) (j : Nat) (l : FLink F)
-    (hl : s.links[j]? = some l) :
+set has no duplicates.
+`hnr`: over events / runs that keep the link set (no `Ev.reload`); a reload keeps the whole record of every retained link
+(`Props/SysReload.lean: reload_frame`) and the theorem applies again from the state after it. -/
+theorem C02_shell_refines_event (s : Sys.Sys F) (e : Sys.Ev) (hinv : ShellInv s) (hnr : e.isReload = false)
+    (j : Nat) (l : FLink F) (hl : s.links[j]? = some l) :
     ∃ l', (Sys.step s e).1.links[j]? = some l' ∧
       ∃ kops : List KOp, (∀ k ∈ kops, kopOk (evOps s e j) k) ∧
         l'.core.keys = kops.foldl kstep l.core.keys ∧
         l'.core.inFlight = (l'.core.keys.length : Int) ∧ l'.core.keys.Nodup := by
-  obtain ⟨l', hl', hrun⟩ := (step_run s e).2 j l hl
+  obtain ⟨l', hl', hrun⟩ := (step_run s e hnr).2 j l hl
   obtain ⟨hi, kops, h1, h2⟩ := keys_run hrun (shellInv_all hinv l (List.mem_of_getElem? hl))
   exact ⟨l', hl', kops, h1, h2, hi.log.count, hi.log.nodup⟩
 
@@ -640,6 +642,9 @@ theorem C02_shell_refines_event (s : Sys.Sys F) (e : Sys.Ev) (hinv : ShellInv s)
 * housekeeping: only a reset (reconnect, with `reset_for_reconnect` or — failed socket re-creation —
   `mark_for_recovery`);
 * `setCfg` / `crit` / `failNext` / `failBind` / `stamp` (verdict stamps) / `syncTimeout`: nothing;
+* `reload` (`apply_connection_changes`): nothing — it is not an event of the index-based walk (`evOps` is empty
+  for it): it performs no set operation on any link, a retained link keeps its whole record (key list
+  included), a removed link disappears with its set, a fresh link starts with the empty set;
 * uplink datagram, by type code: SRT ACK 0x8002 — only cumulative ACKs; SRT NAK 0x8003 and SRTLA ACK 0x9100 —
   only single retirements; REG3 0x9202 and REG_ERR 0x9210 — only a reset, and only on the ARRIVAL link;
   any other type (keepalive, REG_NGP, REG2, data, unknown) and datagrams too short for a type code — nothing. -/
@@ -654,11 +659,13 @@ theorem C02_shell_event_kinds (s : Sys.Sys F) (e : Sys.Ev) (j : Nat) (k : KOp) (
     | .failBind _ => False
     | .stamp _ _ _ _ _ => False
     | .syncTimeout => False
+    | .reload _ _ _ => False
     | .uplink _ cid data =>
         ∃ pt, Codec.getPacketTypeS data = some pt ∧
           ((pt = 0x8002 ∧ ∃ a, k = .cumAck a) ∨ ((pt = 0x8003 ∨ pt = 0x9100) ∧ ∃ q, k = .retire q) ∨
            ((pt = 0x9202 ∨ pt = 0x9210) ∧ k = .reset ∧ s.links.findIdx? (·.core.connId == cid) = some j)) := by
   cases e with
+  | reload rnow raddrs routs => cases k <;> first | exact hk | (rcases hk with h | h | h <;> exact h) | (rcases hk with h | h <;> exact h)
   | client now pkt =>
     cases k with
     | send q => exact .inl ⟨q, rfl⟩
@@ -771,9 +778,11 @@ type and content, periodic flushes, housekeeping ticks, configuration changes, i
 every link `j`: its key list is the fold of the per-link set machine over a shell-visible history (`RunHist`:
 sends exactly where batches were drained — NOT where datagrams were queued —, cumulative ACKs, single
 retirements by SRTLA ACK / charged NAK, resets), its `in_flight_packets` is the size of that set (never
-negative), and the set has no duplicates. -/
-theorem C02_shell_refines (s : Sys.Sys F) (evs : List Sys.Ev) (hinv : ShellInv s) (j : Nat) (l : FLink F)
-    (hl : s.links[j]? = some l) :
+negative), and the set has no duplicates.
+`hnr`: over events / runs that keep the link set (no `Ev.reload`); a reload keeps the whole record of every retained link
+(`Props/SysReload.lean: reload_frame`) and the theorem applies again from the state after it. -/
+theorem C02_shell_refines (s : Sys.Sys F) (evs : List Sys.Ev) (hinv : ShellInv s) (hnr : Sys.NoReload evs)
+    (j : Nat) (l : FLink F) (hl : s.links[j]? = some l) :
     ∃ l' hist, (Sys.run s evs).1.links[j]? = some l' ∧ RunHist s evs j hist ∧
       l'.core.keys = hist.foldl kstep l.core.keys ∧
       l'.core.inFlight = (l'.core.keys.length : Int) ∧ 0 ≤ l'.core.inFlight ∧ l'.core.keys.Nodup := by
@@ -782,8 +791,8 @@ theorem C02_shell_refines (s : Sys.Sys F) (evs : List Sys.Ev) (hinv : ShellInv s
     obtain ⟨hi, -, -, -, -⟩ := hinv l (List.mem_of_getElem? hl)
     exact ⟨l, [], hl, .nil s j, rfl, hi.count, by rw [hi.count]; exact Int.natCast_nonneg _, hi.nodup⟩
   | cons e evs ih =>
-    obtain ⟨l1, hl1, kops, hk1, hk2, -, -⟩ := C02_shell_refines_event s e hinv j l hl
-    obtain ⟨l', hist, h1, h2, h3, h4, h5, h6⟩ := ih (Sys.step s e).1 (hinv.step e) l1 hl1
+    obtain ⟨l1, hl1, kops, hk1, hk2, -, -⟩ := C02_shell_refines_event s e hinv hnr.head j l hl
+    obtain ⟨l', hist, h1, h2, h3, h4, h5, h6⟩ := ih (Sys.step s e).1 (hinv.step e) hnr.tail l1 hl1
     refine ⟨l', kops ++ hist, h1, .cons hk1 h2, ?_, h4, h5, h6⟩
     rw [List.foldl_append, ← hk2]
     exact h3
@@ -927,9 +936,11 @@ inductive RunHistX : Sys.Sys F → List Sys.Ev → Nat → List KOp → Prop
 /-- **C02 at shell level, every run, exact data path.**  As `C02_shell_refines`, from any state that satisfies the
 accounting invariant and has pairwise distinct conn ids (both hold initially and along every run), with the
 history `RunHistX`: the blocks of `client` and `flush` events are DETERMINED by the state the run had reached —
-no unconstrained `send` / `reset` arguments. -/
+no unconstrained `send` / `reset` arguments.
+`hnr`: over events / runs that keep the link set (no `Ev.reload`); a reload keeps the whole record of every retained link
+(`Props/SysReload.lean: reload_frame`) and the theorem applies again from the state after it. -/
 theorem C02_shell_refines_exact (s : Sys.Sys F) (evs : List Sys.Ev) (hinv : ShellInv s)
-    (hnd : (Sys.ids s.links).Nodup) (j : Nat) (l : FLink F) (hl : s.links[j]? = some l) :
+    (hnd : (Sys.ids s.links).Nodup) (hnr : Sys.NoReload evs) (j : Nat) (l : FLink F) (hl : s.links[j]? = some l) :
     ∃ l' hist, (Sys.run s evs).1.links[j]? = some l' ∧ RunHistX s evs j hist ∧
       l'.core.keys = hist.foldl kstep l.core.keys ∧
       l'.core.inFlight = (l'.core.keys.length : Int) ∧ 0 ≤ l'.core.inFlight ∧ l'.core.keys.Nodup := by
@@ -938,27 +949,28 @@ theorem C02_shell_refines_exact (s : Sys.Sys F) (evs : List Sys.Ev) (hinv : Shel
     obtain ⟨hi, -, -, -, -⟩ := hinv l (List.mem_of_getElem? hl)
     exact ⟨l, [], hl, .nil s j, rfl, hi.count, by rw [hi.count]; exact Int.natCast_nonneg _, hi.nodup⟩
   | cons e evs ih =>
-    have hnd' : (Sys.ids (Sys.step s e).1.links).Nodup := by rw [Sys.step_ids s e hnd]; exact hnd
+    have hnd' : (Sys.ids (Sys.step s e).1.links).Nodup := by rw [Sys.step_ids s e hnd hnr.head]; exact hnd
     have other : (∀ now pkt, e ≠ .client now pkt) → (∀ now, e ≠ .flush now) →
         ∃ l' hist, (Sys.run s (e :: evs)).1.links[j]? = some l' ∧ RunHistX s (e :: evs) j hist ∧
           l'.core.keys = hist.foldl kstep l.core.keys ∧
           l'.core.inFlight = (l'.core.keys.length : Int) ∧ 0 ≤ l'.core.inFlight ∧ l'.core.keys.Nodup := by
       intro hc hf
-      obtain ⟨l1, hl1, kops, hk1, hk2, -, -⟩ := C02_shell_refines_event s e hinv j l hl
-      obtain ⟨l', hist, h1, h2, h3, h4, h5, h6⟩ := ih (Sys.step s e).1 (hinv.step e) hnd' l1 hl1
+      obtain ⟨l1, hl1, kops, hk1, hk2, -, -⟩ := C02_shell_refines_event s e hinv hnr.head j l hl
+      obtain ⟨l', hist, h1, h2, h3, h4, h5, h6⟩ := ih (Sys.step s e).1 (hinv.step e) hnd' hnr.tail l1 hl1
       refine ⟨l', kops ++ hist, h1, .other hc hf hk1 h2, ?_, h4, h5, h6⟩
       rw [List.foldl_append, ← hk2]
       exact h3
     cases e with
+    | reload rnow raddrs routs => exact absurd hnr.head (by simp [Sys.Ev.isReload])
     | client now pkt =>
       obtain ⟨l1, hl1, hk, -⟩ := client_keys_exact s now pkt hnd j l hl
-      obtain ⟨l', hist, h1, h2, h3, h4, h5, h6⟩ := ih _ (hinv.step _) hnd' l1 hl1
+      obtain ⟨l', hist, h1, h2, h3, h4, h5, h6⟩ := ih _ (hinv.step _) hnd' hnr.tail l1 hl1
       refine ⟨l', clientBlock s now pkt j ++ hist, h1, .client h2, ?_, h4, h5, h6⟩
       rw [List.foldl_append, ← hk]
       exact h3
     | flush now =>
       obtain ⟨l1, hl1, hk, -⟩ := C02_shell_flush_exact s now j l hl
-      obtain ⟨l', hist, h1, h2, h3, h4, h5, h6⟩ := ih _ (hinv.step _) hnd' l1 hl1
+      obtain ⟨l', hist, h1, h2, h3, h4, h5, h6⟩ := ih _ (hinv.step _) hnd' hnr.tail l1 hl1
       refine ⟨l', flushBlock s j ++ hist, h1, .flush h2, ?_, h4, h5, h6⟩
       have hb : (flushBlock s j).foldl kstep l.core.keys = l1.core.keys := by
         unfold flushBlock
@@ -1332,8 +1344,8 @@ example :
   decide +kernel
 
 /-- Instances of the theorems on `exShell`. -/
-example (evs : List Sys.Ev) (j : Nat) (l : FLink Int) (hl : exShell.links[j]? = some l) :=
-  C02_shell_refines exShell evs exShell_inv j l hl
+example (evs : List Sys.Ev) (hnr : Sys.NoReload evs) (j : Nat) (l : FLink Int) (hl : exShell.links[j]? = some l) :=
+  C02_shell_refines exShell evs exShell_inv hnr j l hl
 
 example (now cid : Nat) (data : Sys.Bytes) (idx : Nat)
     (hidx : exShell.links.findIdx? (·.core.connId == cid) = some idx) :=
@@ -1362,8 +1374,8 @@ example :
 example (now : Nat) (pkt : Sys.Bytes) (j : Nat) (l : FLink Int) (hl : exShell.links[j]? = some l) :=
   C02_shell_client_exact exShell now pkt (by decide) j l hl
 
-example (evs : List Sys.Ev) (j : Nat) (l : FLink Int) (hl : exShell.links[j]? = some l) :=
-  C02_shell_refines_exact exShell evs exShell_inv (by decide) j l hl
+example (evs : List Sys.Ev) (hnr : Sys.NoReload evs) (j : Nat) (l : FLink Int) (hl : exShell.links[j]? = some l) :=
+  C02_shell_refines_exact exShell evs exShell_inv (by decide) hnr j l hl
 
 /-- An exact history (`RunHistX`) for link 0 over the run [client 12, NAK of 5, flush]: the client block is the
 four sends of the drained batch, the NAK block (an `other` event) one retirement, the flush block is empty (the
